@@ -290,6 +290,10 @@ func propTable() map[string]*PropSpec {
 		}
 		q4 := append([]RunConfig{}, q...)
 		th4 := append([]RunConfig{}, th...)
+		lr := rc("C04_LeaderReproposal", ".", "C04_LeaderReproposal", nil)
+		lr.RequireReach = []string{"C04.leader.committed", "C04.leader.no_commit"}
+		q4 = append(q4, lr)
+		th4 = append(th4, lr)
 		for _, me := range []int{0, 2} {
 			for _, mask := range []int{0, 1} {
 				c := rc(fmt.Sprintf("C04_NewViewCommit/me=%d/proofmask=%d", me, mask), ".", "C04_NewViewCommit", map[string]int{"me": me, "proofmask": mask})
@@ -504,10 +508,15 @@ func propTable() map[string]*PropSpec {
 				q = append(q, c)
 			}
 		}
-		t["C14"] = &PropSpec{ID: "C14", Quick: q, Thorough: q,
+		for _, me := range []int{0, 1} {
+			c := rc(fmt.Sprintf("C14_SyncDuringCommit/me=%d", me), ".", "C14_SyncDuringCommit", map[string]int{"me": me})
+			c.RequireReach = []string{"C14.sync_during_commit"}
+			q = append(q, c)
+		}
+		t["C14"] = &PropSpec{ID: "C14", Quick: q, Thorough: q, LabelPrefixes: []string{"C14."},
 			StaticChecks: []func(eng *Engine) (string, bool, string){staticSingleSender, staticSingleWriter},
 			Assumptions:  []string{"same sequential reduction as C13; the main loop is (statically checked) the only sender on the worker's update-state channel"},
-			Bounds:       []string{"worker: symbolic start height and symbolic sync height (older / equal / newer), followed by a second older sync; main loop: 1..3 UpdateState calls with symbolic heights, worker channel empty or pre-filled, in the channel model"},
+			Bounds:       []string{"worker: symbolic start height and symbolic sync height (older / equal / newer), followed by a second older sync; main loop: 1..3 UpdateState calls with symbolic heights, worker channel empty or pre-filled, in the channel model; sync to a symbolic height handled by the main loop while the worker is inside the commit callback (the main loop runs from inside the callback until it parks)"},
 			Outside:      []string{"real-time 'indefinitely'; syncs racing a commit on the real scheduler"},
 		}
 	}
@@ -515,10 +524,14 @@ func propTable() map[string]*PropSpec {
 	{
 		mk := func(byz, prefix, timeout, steps, kinds, class, redeliver, recipients int) RunConfig {
 			c := rc(fmt.Sprintf("C01_Run/byz=%d/prefix=%d/timeout=%d/kinds=%0*d/class=%d/redeliver=%d/recipients=%d", byz, prefix, timeout, steps, kinds, class, redeliver, recipients), ".", "C01_Run",
-				map[string]int{"byz": byz, "prefix": prefix, "timeout": timeout, "steps": steps, "kinds": kinds, "class": class, "redeliver": redeliver, "recipients": recipients})
+				map[string]int{"byz": byz, "prefix": prefix, "timeout": timeout, "steps": steps, "kinds": kinds, "class": class, "redeliver": redeliver, "recipients": recipients, "byzvote": 0, "debug": 0})
 			c.MaxPaths = 600000
 			return c
 		}
+		// two consecutive timeouts (first votes lost) + the Byzantine member's genuine proof-less vote, then PREPARE and COMMIT
+		dbl := mk(1, 2, 2, 1, 2, 0, 1, 3)
+		dbl.Name += "/byzvote=1"
+		dbl.Params["byzvote"] = 1
 		q := []RunConfig{
 			mk(1, 2, 1, 2, 2, 1, 0, 3),  // known-finding class S7: bare PREPREPARE(view>0) then COMMIT
 			mk(1, 2, 1, 2, 2, 2, 0, 3),  // same with the class excluded
@@ -527,20 +540,21 @@ func propTable() map[string]*PropSpec {
 			mk(1, 2, 1, 1, 5, 0, 1, -1), // NEW_VIEW to a symbolic subset, then all delayed honest traffic arrives
 			mk(1, 2, 1, 2, 12, 0, 0, 3), // PREPARE then COMMIT
 			mk(1, 1, 1, 2, 22, 0, 1, 3), // two COMMITs, all locked, nobody committed yet
+			dbl,
 		}
 		q[2].RequireReach = []string{"C01.some_commit"}
 		th := append([]RunConfig{}, q...)
 		eq := mk(0, 0, 0, 2, 0, 0, 1, -1) // Byzantine first leader: two proposals to symbolic subsets (class 0: view unrestricted)
 		eq.Params["kinds"] = 0
 		th = append(th, eq)
-		th = append(th,
+		th = append(th, mk(1, 2, 2, 3, 312, 0, 0, 3),
 			mk(1, 2, 1, 2, 2, 2, 0, -1), mk(1, 2, 1, 2, 52, 0, 0, -1), mk(1, 2, 1, 2, 32, 0, 0, 3), mk(1, 2, 1, 2, 42, 0, 0, 3),
 			mk(1, 1, 1, 2, 52, 0, 0, 3), mk(1, 1, 1, 2, 2, 2, 1, 3), mk(3, 2, 1, 2, 52, 0, 0, 3), mk(3, 2, 1, 2, 2, 2, 0, 3),
 			mk(1, 2, 1, 3, 522, 0, 0, 3), mk(1, 2, 1, 3, 122, 0, 0, 3), mk(0, 0, 0, 3, 2, 2, 0, 3), mk(0, 0, 1, 2, 52, 0, 1, 3))
 		th[len(th)-2].Params["kinds"] = 2 // 002
 		t["C01"] = &PropSpec{ID: "C01", Quick: q, Thorough: th, LabelPrefixes: []string{"C01."},
 			Assumptions: []string{"ideal signature registry with the unforgeability assumption: genuine signatures only under the Byzantine member's and outsiders' keys, byte-exact replays of anything signed earlier in the run allowed", "proposal validation / commitment stubs; committee of 4 equal weights (f=1), one Byzantine member", "honest traffic is flushed FIFO to all correct nodes after each adversarial step; message loss only as listed in the prefixes; optional re-delivery of everything sent so far (delay/duplication)"},
-			Bounds:      []string{"n=4, one Byzantine member (index 1 quick; 0,1,3 thorough); prefixes: nothing / all correct nodes locked on the honest view-0 proposal / additionally one correct node committed it with the help of a genuine Byzantine COMMIT, each optionally followed by election timeouts; then <=2 (quick) / <=3 (thorough) fully symbolic adversarial multicasts of listed kinds (PREPREPARE, PREPARE, COMMIT, VIEW_CHANGE with/without proof, NEW_VIEW with 3 votes with/without proof) to a fixed or symbolic subset of correct nodes"},
+			Bounds:      []string{"n=4, one Byzantine member (index 1 quick; 0,1,3 thorough); prefixes: nothing / all correct nodes locked on the honest view-0 proposal / additionally one correct node committed it with the help of a genuine Byzantine COMMIT, each optionally followed by one or two rounds of election timeouts (the votes of the first being lost); then <=2 (quick) / <=3 (thorough) fully symbolic adversarial multicasts of listed kinds (PREPREPARE, PREPARE, COMMIT, VIEW_CHANGE with/without proof, NEW_VIEW with 3 votes with/without proof) to a fixed or symbolic subset of correct nodes"},
 			Outside:     []string{"this is NOT a proof of agreement for all schedules: anything beyond the listed prefixes, more than 3 adversarial steps, other delivery orders, committees > 4, more than one Byzantine member"},
 		}
 	}
